@@ -209,6 +209,7 @@ class RopeProject:
         self.dir = tempfile.mkdtemp(prefix="ropeverif-c01-")
         write_tree(self.dir, files)
         self.project = Project(self.dir, ropefolder=None)
+        self.performed = {}
 
     def close(self):
         try:
@@ -255,12 +256,19 @@ class RopeProject:
                 o["moves"].append((c.resource.path, c.new_resource.path))
             else:
                 o["other"].append(type(c).__name__)
-        if perform:
+        key = (tuple(sorted(o["contents"].items())), tuple(o["moves"]), tuple(o["other"]))
+        done = self.performed.get(key)
+        if perform and done is not None:
+            # the same change set was performed before (another token of the same binding): same effect
+            o["after"], o["restored"] = done
+            o["performed"] = "as-before"
+        elif perform:
             try:
                 self.project.do(changes)
                 o["after"] = read_tree(self.dir)
                 self.project.history.undo()
                 o["restored"] = read_tree(self.dir) == self.files
+                self.performed[key] = (o["after"], o["restored"])
             except Exception as e:  # noqa: BLE001
                 o["perform_exc"] = "%s: %s" % (type(e).__name__, str(e)[:200])
                 # put the tree back by hand
@@ -450,7 +458,12 @@ def project_keys(files):
                 return "U"
             return entity(e, fuel - 1)
         if imps:
-            return "U"          # bound by an import and by something else
+            # bound by an import and by something else (try: from m import y / except ImportError: y = None):
+            # one variable of the module that is ALSO the imported name when there is one un-aliased import
+            e = imps[0]
+            if len(set(imps)) == 1 and e[0] == "name" and e[3] == y and y not in m.aliased:
+                return entity(e, fuel - 1)
+            return "U"
         return ("var", a, (), y)
 
     keys = {}
@@ -464,7 +477,7 @@ def project_keys(files):
             elif k[0] == "var":
                 g = ("var", m.name, tuple(k[1]), t.name)
                 if (tuple(k[1]), t.name) in m.info.mixed:
-                    g = "U"
+                    g = name_in(m.name, t.name) if tuple(k[1]) == () else "U"
             elif k[0] == "ent":
                 # the token denotes something bound by an import statement.  It is the imported entity itself when
                 # the statement has no alias (module and importer must agree on the spelling: one binding for the
